@@ -905,8 +905,9 @@ impl ExWorld {
                 let o = self.obs.as_mut().unwrap();
                 o.sess.do_route_refresh(Family::IPV4).await;
             }
-            "fresh" => {
-                // a brand-new session to the same neighbour from the current RIB
+            "fresh" | "newsession" => {
+                // a brand-new session to the same neighbour from the current RIB ("newsession": its initial
+                // dump stays buffered until the next flush)
                 if let Some(o) = self.obs.take() {
                     drop(o);
                 }
@@ -921,7 +922,9 @@ impl ExWorld {
                 }
                 self.mirror.clear();
                 self.obs = Some(ex_observer(&self.global, &self.tables, self.sendmax).await);
-                note.push_str(&self.flush_and_read().await);
+                if tok[0] == "fresh" {
+                    note.push_str(&self.flush_and_read().await);
+                }
             }
             x => panic!("harness: op {x}"),
         }
@@ -1314,7 +1317,14 @@ async fn inbound_replay() {
             "aspath_confed_id" => path.push(confed_id),
             _ => {}
         }
-        let mut asp = vec![2u8, path.len() as u8];
+        let mut asp = Vec::new();
+        if lp == "cseq_local_as" || lp == "cset_local_as" {
+            // a confederation segment in front that already contains the local member AS
+            asp.extend_from_slice(&[if lp == "cseq_local_as" { 3u8 } else { 4u8 }, 2]);
+            asp.extend_from_slice(&65002u32.to_be_bytes());
+            asp.extend_from_slice(&65001u32.to_be_bytes());
+        }
+        asp.extend_from_slice(&[2u8, path.len() as u8]);
         for a in &path {
             asp.extend_from_slice(&a.to_be_bytes());
         }
